@@ -75,3 +75,9 @@ def functions():
     t_mod.create_transmissivity_function(
         {'type': 'peatclsm', 'Ksmacz0': 2.2, 'alpha': 2.5,
          'zeta_max_cm': 33.0})(12.0)
+    _FLIP[0] += 1
+    if _FLIP[0] % 8 == 1:
+        # (slow) the published soil parameters with another sd
+        sy_mod.create_specific_yield_function(
+            {'type': 'peatclsm', 'sd': 0.3, 'theta_s': 0.88, 'b': 7.4,
+             'psi_s': -0.024})(10.0)
